@@ -160,12 +160,15 @@ def r3(ctx):
     maps = []
     for bi, t in e.calls():
         fu = t["f"].get("full", "")
-        m = re.match(r"std::collections::(BTreeMap|HashMap)::<([^>]*)>::(insert|entry)", fu)
+        m = re.match(r"std::collections::(BTreeMap|HashMap|BTreeSet|HashSet)::<(.*?)>::(insert|entry)", fu)
         if m:
             maps.append((t, m.group(1), m.group(2)))
     n = 0
     for t, kind, kv in maps:
-        key = kv.split(",")[0] if not kv.startswith("(") else kv[:kv.index(")") + 1]
+        if kind.endswith("Set"):
+            key = kv
+        else:
+            key = kv.split(",")[0] if not kv.startswith("(") else kv[:kv.index(")") + 1]
         n += 1
         ctx.check("AuthorId" in key, "C13.R3", e.path, "intermediate-map-key-includes-author",
                   "pairs are collected in a %s<%s>; key type %s %s" % (kind, kv, key, "" if "AuthorId" in key else
